@@ -51,6 +51,7 @@ MUTANTS = {
     "C06": [
         ("patch:own-c01-mnp-phase-record",),
         ("patch:own-c06-silent-mnp-not-merged",),
+        ("patch:own-c06-cut-read-erases-mates-entry",),
         ("softclip-consumes-reference", "aldy/sam.py", "            elif op == 4:  # Soft-clip\n                s_start += size", "            elif op == 4:  # Soft-clip\n                s_start += size\n                start += size"),
         ("eq-x-ops-ignored", "aldy/sam.py", "            elif op in [0, 7, 8]:  # M, X and =", "            elif op in [0]:  # M, X and ="),
         ("supplementary-not-skipped", "aldy/sam.py", "                if read.is_supplementary:  # avoid supplementary alignments\n                    continue", "                if False:\n                    continue"),
